@@ -989,3 +989,230 @@ Proof.
     + apply (take_stack_ok cs ow [] (fun _ b _ => b = p_take cs)); [apply sok_nil|]. reflexivity.
     + intros ow' [b s'] Hb. cbn [fst snd safe] in *. subst b. reflexivity.
 Qed.
+
+(* ------------------------------------------------------------------ *)
+(* part 3: the pools under histories and schedules                    *)
+(* ------------------------------------------------------------------ *)
+From Coq Require Import Permutation.
+
+Definition pool_ids (sh : shared) : list id := map b_id (pl_buf (sh_pools sh)).
+Definition pools_clean (sh : shared) : Prop :=
+  forall p o, In o (pool_get (sh_pools sh) p) -> clean p o.
+(* all = every buffer identity owned by some running operation (or leaked by one) *)
+Definition inv (sh : shared) (all : list id) : Prop :=
+  pools_clean sh /\ NoDup (pool_ids sh ++ all) /\ (forall i, In i (pool_ids sh ++ all) -> i < sh_next sh).
+
+Lemma pool_get_set_same P p l : pool_get (pool_set P p l) p = l.
+Proof. destruct p; reflexivity. Qed.
+Lemma pid_eq_dec (p q : pid) : {p = q} + {p <> q}.
+Proof. decide equality. Qed.
+Lemma pool_get_set_other P p q l : p <> q -> pool_get (pool_set P p l) q = pool_get P q.
+Proof. destruct p, q; intros H; try reflexivity; congruence. Qed.
+
+Lemma clean_alloc p i : clean p (alloc p i).
+Proof. destruct p; cbn [clean alloc new_jenc new_slice new_stack j_rbuf j_renc s_elems k_storage]; auto. rewrite repeat_length. lia. Qed.
+
+Lemma remove_nth_in {A} (l : list A) : forall n x, In x (remove_nth n l) -> In x l.
+Proof.
+  induction l as [|y l IH]; intros [|n] x H; cbn [remove_nth] in H; try contradiction.
+  - right. exact H.
+  - destruct H as [<-|H]; [left; reflexivity|right; eapply IH; exact H].
+Qed.
+Lemma remove_nth_perm {A} (l : list A) : forall n x, nth_error l n = Some x -> Permutation l (x :: remove_nth n l).
+Proof.
+  induction l as [|y l IH]; intros [|n] x H; cbn [nth_error remove_nth] in *; try discriminate.
+  - injection H as ->. apply Permutation_refl.
+  - eapply perm_trans; [apply perm_skip; apply IH; exact H|]. apply perm_swap.
+Qed.
+Lemma map_remove_nth {A B} (f : A -> B) (l : list A) : forall n, map f (remove_nth n l) = remove_nth n (map f l).
+Proof. induction l as [|y l IH]; intros [|n]; cbn [remove_nth map]; try reflexivity. f_equal. apply IH. Qed.
+
+Lemma remove_perm_in i (l : list id) : NoDup l -> In i l -> Permutation l (i :: remove Nat.eq_dec i l).
+Proof.
+  induction l as [|x l IH]; intros Hn Hi; [contradiction|].
+  inversion Hn as [|y l' Hnin Hn']; subst. cbn [remove].
+  destruct (Nat.eq_dec i x) as [->|Hne].
+  - rewrite notin_remove; [apply Permutation_refl|exact Hnin].
+  - destruct Hi as [->|Hi]; [congruence|].
+    eapply perm_trans; [apply perm_skip; apply IH; assumption|]. apply perm_swap.
+Qed.
+
+Lemma inv_perm sh a b : Permutation a b -> inv sh a -> inv sh b.
+Proof.
+  intros Hp [Hc [Hn Hb]]. split; [exact Hc|]. split.
+  - eapply Permutation_NoDup; [|exact Hn]. apply Permutation_app_head. exact Hp.
+  - intros i Hi. apply Hb. eapply Permutation_in; [|exact Hi].
+    apply Permutation_app_head. apply Permutation_sym. exact Hp.
+Qed.
+
+Lemma perm_mid (x : id) (A B C D : list id) : Permutation (x :: A ++ B ++ C ++ D) (A ++ B ++ (x :: C) ++ D).
+Proof.
+  rewrite (app_assoc A B (C ++ D)), (app_assoc A B ((x :: C) ++ D)). cbn [app].
+  apply (Permutation_middle (A ++ B) (C ++ D) x).
+Qed.
+
+(* Get: whatever the adversary chooses, the object is clean, a buffer is not owned by
+   anybody, and the invariant holds again with the buffer owned by the taker *)
+Lemma sh_get_inv sh p c pre ow post :
+  inv sh (pre ++ ow ++ post) ->
+  clean p (fst (sh_get sh p c)) /\ fresh p (fst (sh_get sh p c)) ow /\
+  inv (snd (sh_get sh p c)) (pre ++ own_add p (fst (sh_get sh p c)) ow ++ post).
+Proof.
+  intros [Hc [Hn Hb]].
+  assert (Hnew : clean p (alloc p (sh_next sh)) /\ fresh p (alloc p (sh_next sh)) ow /\
+                 inv {| sh_pools := sh_pools sh; sh_next := S (sh_next sh) |}
+                     (pre ++ own_add p (alloc p (sh_next sh)) ow ++ post)).
+  { split; [apply clean_alloc|].
+    assert (Hfr : ~ In (sh_next sh) (pool_ids sh ++ pre ++ ow ++ post)).
+    { intros Hi. apply Hb in Hi. lia. }
+    split.
+    - unfold fresh. destruct p; cbn [buf_id alloc new_buf b_id]; auto.
+      intros Hi. apply Hfr. apply in_or_app. right. apply in_or_app. right. apply in_or_app. left. exact Hi.
+    - unfold own_add. destruct p; cbn [buf_id alloc new_buf b_id];
+        try (split; [exact Hc|split; [exact Hn|intros i Hi; apply Hb in Hi; cbn [sh_next]; lia]]).
+      split; [exact Hc|]. unfold pool_ids in *. cbn [sh_pools sh_next].
+      assert (Hp : Permutation (sh_next sh :: map b_id (pl_buf (sh_pools sh)) ++ pre ++ ow ++ post)
+                               (map b_id (pl_buf (sh_pools sh)) ++ pre ++ (sh_next sh :: ow) ++ post)) by apply perm_mid.
+      split.
+      + eapply Permutation_NoDup; [exact Hp|]. constructor; assumption.
+      + intros i Hi. apply Permutation_sym in Hp. apply (Permutation_in _ Hp) in Hi.
+        destruct Hi as [<-|Hi]; [lia|]. apply Hb in Hi. lia. }
+  destruct c as [|n]; [exact Hnew|].
+  cbn [sh_get]. destruct (nth_error (pool_get (sh_pools sh) p) n) as [o|] eqn:Hnth; [|exact Hnew].
+  cbn [fst snd].
+  assert (Hin : In o (pool_get (sh_pools sh) p)) by (eapply nth_error_In; exact Hnth).
+  split; [apply Hc; exact Hin|].
+  assert (Hclean' : pools_clean {| sh_pools := pool_set (sh_pools sh) p (remove_nth n (pool_get (sh_pools sh) p)); sh_next := sh_next sh |}).
+  { intros q o' Ho'. cbn [sh_pools] in Ho'. destruct (pid_eq_dec p q) as [<-|Hne].
+    - rewrite pool_get_set_same in Ho'. apply Hc. eapply remove_nth_in. exact Ho'.
+    - rewrite pool_get_set_other in Ho' by exact Hne. apply Hc. exact Ho'. }
+  destruct p; unfold fresh, own_add; cbn [buf_id];
+    try (split; [exact I|]; split; [exact Hclean'|]; split; [exact Hn|exact Hb]).
+  (* PBuf *)
+  cbn [pool_get] in Hnth, Hin.
+  assert (Hp0 : Permutation (map b_id (pl_buf (sh_pools sh))) (b_id o :: map b_id (remove_nth n (pl_buf (sh_pools sh))))).
+  { rewrite map_remove_nth. apply remove_nth_perm. apply map_nth_error. exact Hnth. }
+  assert (Hp : Permutation (pool_ids sh ++ pre ++ ow ++ post)
+                 (map b_id (remove_nth n (pl_buf (sh_pools sh))) ++ pre ++ (b_id o :: ow) ++ post)).
+  { unfold pool_ids. eapply perm_trans; [apply Permutation_app_tail; exact Hp0|]. cbn [app]. apply perm_mid. }
+  split.
+  - intros Hi. 
+    assert (Hn2 : NoDup (b_id o :: map b_id (remove_nth n (pl_buf (sh_pools sh))) ++ pre ++ ow ++ post)).
+    { eapply Permutation_NoDup; [|exact Hn]. apply (Permutation_app_tail (pre ++ ow ++ post)) in Hp0. exact Hp0. }
+    inversion Hn2 as [|x l Hnin _]; subst. apply Hnin.
+    apply in_or_app. right. apply in_or_app. right. apply in_or_app. left. exact Hi.
+  - split; [exact Hclean'|]. unfold pool_ids. cbn [sh_pools sh_next pool_set pl_buf]. split.
+    + eapply Permutation_NoDup; [exact Hp|exact Hn].
+    + intros i Hi. apply Hb. eapply Permutation_in; [apply Permutation_sym; exact Hp|exact Hi].
+Qed.
+
+Lemma sh_put_inv sh p o pre ow post :
+  inv sh (pre ++ ow ++ post) -> NoDup ow -> clean p o -> owns p o ow ->
+  inv (sh_put sh p o) (pre ++ own_del p o ow ++ post).
+Proof.
+  intros [Hc [Hn Hb]] Hnow Hcl Hown.
+  assert (Hclean' : pools_clean (sh_put sh p o)).
+  { intros q o' Ho'. unfold sh_put in Ho'. cbn [sh_pools] in Ho'. destruct (pid_eq_dec p q) as [<-|Hne].
+    - rewrite pool_get_set_same in Ho'. destruct Ho' as [<-|Ho']; [exact Hcl|apply Hc; exact Ho'].
+    - rewrite pool_get_set_other in Ho' by exact Hne. apply Hc. exact Ho'. }
+  destruct p; unfold owns, own_del in *; cbn [buf_id] in *;
+    try (split; [exact Hclean'|]; split; [exact Hn|exact Hb]).
+  (* PBuf *)
+  assert (Hp : Permutation (pool_ids sh ++ pre ++ ow ++ post)
+                 ((b_id o :: pool_ids sh) ++ pre ++ remove Nat.eq_dec (b_id o) ow ++ post)).
+  { cbn [app]. apply Permutation_sym.
+    eapply perm_trans; [apply perm_mid|].
+    apply Permutation_app_head. apply Permutation_app_head.
+    change ((b_id o :: remove Nat.eq_dec (b_id o) ow) ++ post) with ((b_id o :: remove Nat.eq_dec (b_id o) ow) ++ post).
+    apply Permutation_app_tail. apply Permutation_sym. apply remove_perm_in; assumption. }
+  split; [exact Hclean'|]. unfold pool_ids, sh_put in *. cbn [sh_pools sh_next pool_set pl_buf pool_get map]. split.
+  - eapply Permutation_NoDup; [exact Hp|exact Hn].
+  - intros i Hi. apply Hb. eapply Permutation_in; [apply Permutation_sym; exact Hp|exact Hi].
+Qed.
+
+Lemma NoDup_app_r {A} (a b : list A) : NoDup (a ++ b) -> NoDup b.
+Proof. induction a as [|x a IH]; cbn [app]; intros H; [exact H|]. inversion H; subst. apply IH. assumption. Qed.
+
+Lemma sh_gc_inv sh all : inv sh all -> inv (sh_gc sh) all.
+Proof.
+  intros [Hc [Hn Hb]]. split; [|split].
+  - intros p o Ho. destruct p; cbn in Ho; contradiction.
+  - unfold pool_ids, sh_gc. cbn. eapply NoDup_app_r. exact Hn.
+  - intros i Hi. apply Hb. apply in_or_app. right. exact Hi.
+Qed.
+
+Lemma inv_NoDup_mid sh pre ow post : inv sh (pre ++ ow ++ post) -> NoDup ow.
+Proof.
+  intros [_ [Hn _]]. apply NoDup_app_r in Hn. apply NoDup_app_r in Hn.
+  induction ow as [|x ow IH]; [constructor|].
+  cbn [app] in Hn. inversion Hn as [|y l Hnin Hn']; subst. constructor.
+  - intros Hi. apply Hnin. apply in_or_app. left. exact Hi.
+  - apply IH. exact Hn'.
+Qed.
+
+(* a safe program, run to completion against any pools satisfying the invariant and any
+   adversary, does not fault, ends in Q, and re-establishes the invariant *)
+Lemma exec_safe {A} (a : act A) : forall ow (Q : list id -> A -> Prop) adv sh pre post,
+  safe a ow Q -> inv sh (pre ++ ow ++ post) ->
+  exists sh' adv' r ow', exec a adv sh = (sh', adv', inl r) /\ Q ow' r /\ inv sh' (pre ++ ow' ++ post).
+Proof.
+  induction a as [r|p k IH|p o k IH|e]; intros ow Q adv sh pre post Hs Hi; cbn [exec safe] in *.
+  - exists sh, adv, r, ow. auto.
+  - set (c := match adv with [] => 0 | c :: _ => c end).
+    destruct (sh_get_inv sh p c pre ow post Hi) as [Hcl [Hfr Hi']].
+    destruct (sh_get sh p c) as [o sh1]. cbn [fst snd] in *.
+    apply (IH o (own_add p o ow) Q (tl adv) sh1 pre post); [apply Hs; assumption|exact Hi'].
+  - destruct Hs as [Hcl [Hown Hk]].
+    apply (IH (own_del p o ow) Q adv (sh_put sh p o) pre post Hk).
+    apply sh_put_inv; try assumption. eapply inv_NoDup_mid. exact Hi.
+  - contradiction.
+Qed.
+
+Definition hist_specs (h : list hitem) : list (sum out fault) :=
+  flat_map (fun it => match it with HOp o => [inl (op_spec o)] | HGC => [] end) h.
+
+Lemma run_hist_ok : forall h adv sh all,
+  inv sh all ->
+  exists sh' adv' all', run_hist h adv sh = (sh', adv', hist_specs h) /\ inv sh' all'.
+Proof.
+  induction h as [|it h IH]; intros adv sh all Hi; cbn [run_hist hist_specs flat_map].
+  - exists sh, adv, all. auto.
+  - destruct it as [o|].
+    + destruct (exec_safe (op_prog o) [] (fun _ r => r = op_spec o) adv sh all [] (op_safe o [])) as [sh1 [adv1 [r [ow1 [He [Hr Hi1]]]]]].
+      { cbn [app]. rewrite app_nil_r. exact Hi. }
+      rewrite He. subst r.
+      destruct (IH adv1 sh1 _ Hi1) as [sh2 [adv2 [all2 [Hrun Hi2]]]].
+      rewrite Hrun. exists sh2, adv2, all2. cbn [app]. auto.
+    + apply (IH adv (sh_gc sh) all). apply sh_gc_inv. exact Hi.
+Qed.
+
+Lemma inv_init : inv sh_init [].
+Proof.
+  split; [|split].
+  - intros p o Ho. destruct p; cbn in Ho; contradiction.
+  - cbn. constructor.
+  - intros i Hi. cbn in Hi. contradiction.
+Qed.
+
+(* non-interference of pool contents: what an operation produces after ANY history, under ANY
+   adversary, is its specification -- a function of the operation alone *)
+Theorem observe_spec h adv o : observe h adv o = inl (op_spec o).
+Proof.
+  unfold observe.
+  destruct (run_hist_ok h adv sh_init [] inv_init) as [sh1 [adv1 [all1 [Hrun Hi1]]]].
+  rewrite Hrun.
+  destruct (exec_safe (op_prog o) [] (fun _ r => r = op_spec o) adv1 sh1 all1 [] (op_safe o [])) as [sh2 [adv2 [r [ow2 [He [Hr _]]]]]].
+  { cbn [app]. rewrite app_nil_r. exact Hi1. }
+  rewrite He. cbn [snd]. subst r. reflexivity.
+Qed.
+
+Theorem history_independent h1 h2 adv1 adv2 o : observe h1 adv1 o = observe h2 adv2 o.
+Proof. rewrite !observe_spec. reflexivity. Qed.
+
+Theorem no_fault_in_history h adv :
+  Forall (fun r => exists x, r = inl x) (snd (run_hist h adv sh_init)).
+Proof.
+  destruct (run_hist_ok h adv sh_init [] inv_init) as [sh1 [adv1 [all1 [Hrun _]]]].
+  rewrite Hrun. cbn [snd]. clear Hrun. unfold hist_specs. induction h as [|[o|] h IH]; cbn [flat_map app]; auto.
+  constructor; [eexists; reflexivity|exact IH].
+Qed.
